@@ -15,6 +15,9 @@ type lookupFacts struct {
 	indexed     map[string]bool // receiver paths indexed with the token
 	atoiIndexed map[string]bool // receiver paths indexed with strconv.Atoi(token)
 	cmpConsts   map[string]bool // constants the token is compared with
+	// answered: member name -> Go field of the receiver handed back (with a nil error) on the paths where the
+	// token is known to equal that name
+	answered map[string]string
 }
 
 // lookupFactsBySim decides the order-dependent obligations of lookup-table (fall-through between consulted
@@ -29,7 +32,7 @@ func (c *Ctx) lookupFactsBySim(rule, tname string, fd *ast.FuncDecl, formats []s
 	if recv == nil || tok == nil {
 		return nil
 	}
-	lf := &lookupFacts{consulted: map[string]bool{}, indexed: map[string]bool{}, atoiIndexed: map[string]bool{}, cmpConsts: map[string]bool{}}
+	lf := &lookupFacts{consulted: map[string]bool{}, indexed: map[string]bool{}, atoiIndexed: map[string]bool{}, cmpConsts: map[string]bool{}, answered: map[string]string{}}
 	isTok := func(v sval) bool {
 		p, ok := v.(svPath)
 		return ok && p.root == tok && len(p.steps) == 0
@@ -203,6 +206,41 @@ func (c *Ctx) lookupFactsBySim(rule, tname string, fd *ast.FuncDecl, formats []s
 			note(r)
 			if a, ok := r.(svAddr); ok && p.final != nil {
 				note(p.final[a.p.root])
+			}
+		}
+	}
+	// direct answers: `case "get": return p.Get, nil`
+	for _, p := range paths {
+		if len(p.rets) != 2 {
+			continue
+		}
+		if _, nilErr := p.rets[1].(svNil); !nilErr {
+			continue
+		}
+		var field string
+		switch r := p.rets[0].(type) {
+		case svPath:
+			if r.root == recv && len(r.steps) > 0 {
+				field = r.steps[len(r.steps)-1]
+			}
+		case svAddr:
+			if r.p.root == recv && len(r.p.steps) > 0 {
+				field = r.p.steps[len(r.p.steps)-1]
+			}
+		}
+		if field == "" {
+			continue
+		}
+		for _, cd := range p.conds {
+			if b, ok := cd.v.(svBin); ok && b.op == token.NEQ && cd.neg && isTok(b.x) {
+				if k, ok := b.y.(svConst); ok && k.v.Kind() == constant.String {
+					name := constant.StringVal(k.v)
+					if prev, seen := lf.answered[name]; seen && prev != field {
+						lf.answered[name] = "<several>"
+					} else {
+						lf.answered[name] = field
+					}
+				}
 			}
 		}
 	}
